@@ -3643,6 +3643,78 @@ theorem ansSet_then_get {H : Hashes} (hH : HashOk H) (expired : V → Bool) {c :
   rw [(ansGet_spec hH expired i1' k).2.1, s1']
 end ansSection
 
+
+/-! ### FailureCache: the read–compute–CAS / CAD retry loops -/
+
+/-- what `record` must leave under the key, as a function of what was there -/
+def failSpec (init maxT now : Nat) : Option (Nat × Nat) → Nat × Nat
+  | none => (1, now + init)
+  | some cur => if now < cur.2 then cur else failNext init maxT now cur
+
+/-- **`FailureCache.record`** (run without interference) needs one pass of its
+retry loop and publishes exactly `failSpec`: a first generation for an absent
+key, nothing for an active entry, the next generation — by `CompareAndSwap`
+on the identical current entry — for an expired one; for a stored key no
+other key and not the counter change. -/
+theorem failRecord_spec {H : Hashes} (hH : HashOk H) (init maxT now k fuel : Nat) {c : Cache (Nat × Nat)}
+    (inv : SegInv H c.data) :
+    SegInv H (c.failRecord H init maxT now k (fuel + 1)).1.data ∧
+    (c.failRecord H init maxT now k (fuel + 1)).2 = failSpec init maxT now (sabs H c.data k) ∧
+    sabs H (c.failRecord H init maxT now k (fuel + 1)).1.data k = some (failSpec init maxT now (sabs H c.data k)) ∧
+    ((sabs H c.data k).isSome → (∀ k', k' ≠ k →
+        sabs H (c.failRecord H init maxT now k (fuel + 1)).1.data k' = sabs H c.data k') ∧
+      (c.failRecord H init maxT now k (fuel + 1)).1.len = c.len) := by
+  unfold Cache.failRecord Cache.get
+  rw [seg_get_eq hH inv k]
+  cases hs : sabs H c.data k with
+  | none =>
+    simp only
+    obtain ⟨i1, s1, _, _⟩ := setWithCap_spec hH inv k (1, now + init) (c.maxSize : Int)
+    exact ⟨i1, rfl, s1, fun h => by simp at h⟩
+  | some cur =>
+    simp only
+    by_cases hact : now < cur.2
+    · rw [if_pos hact]
+      refine ⟨inv, by simp [failSpec, hact], by simp [failSpec, hact, hs], fun _ => ⟨fun _ _ => rfl, rfl⟩⟩
+    · rw [if_neg hact]
+      obtain ⟨c1, c2, c3, _, _⟩ := cas_spec hH inv k cur (failNext init maxT now cur)
+      have ht : (c.compareAndSwap H k cur (failNext init maxT now cur)).2 = true := c2.mpr hs
+      rw [if_pos ht]
+      obtain ⟨c31, c32⟩ := c3 ht
+      refine ⟨c1, by simp [failSpec, hact], by rw [c31 k, if_pos rfl]; simp [failSpec, hact], fun _ => ⟨?_, ?_⟩⟩
+      · intro k' hk'; rw [c31 k', if_neg hk']
+      · exact c32
+
+/-- **`ResetQuestion` / `ResetZone`**: one pass; the key is gone iff it was stored, nothing else changes. -/
+theorem failReset_spec {H : Hashes} (hH : HashOk H) (k fuel : Nat) {c : Cache (Nat × Nat)} (inv : SegInv H c.data) :
+    SegInv H (c.failReset H k (fuel + 1)).1.data ∧
+    (c.failReset H k (fuel + 1)).2 = (sabs H c.data k).isSome ∧
+    (∀ k', sabs H (c.failReset H k (fuel + 1)).1.data k' = if k' = k then none else sabs H c.data k') := by
+  unfold Cache.failReset Cache.get
+  rw [seg_get_eq hH inv k]
+  cases hs : sabs H c.data k with
+  | none =>
+    simp only
+    refine ⟨inv, rfl, ?_⟩
+    intro k'
+    by_cases h : k' = k
+    · rw [if_pos h, h, hs]
+    · rw [if_neg h]
+  | some cur =>
+    simp only
+    obtain ⟨d1, d2, d3, _, _⟩ := cad_spec hH inv k cur
+    have ht : (c.compareAndDelete H k cur).2 = true := d2.mpr hs
+    rw [if_pos ht]
+    exact ⟨d1, rfl, (d3 ht).1⟩
+
+theorem failLookup_spec {H : Hashes} (hH : HashOk H) (now k : Nat) {c : Cache (Nat × Nat)} (inv : SegInv H c.data) :
+    c.failLookup H now k = (match sabs H c.data k with
+      | some e => if now < e.2 then some e else none
+      | none => none) := by
+  unfold Cache.failLookup Cache.get
+  rw [seg_get_eq hH inv k]
+  cases sabs H c.data k <;> rfl
+
 /-! ### the real mixers are admissible instances -/
 
 theorem realIdx_ok : IdxOk realIdx := fun n _ hn => Nat.mod_lt _ hn
